@@ -1133,7 +1133,7 @@ func Retract(vm *VM, t Term, k Cont, env *Env) *Promise {
 				// The database may have been updated since the call. Look for the very clause in the current database.
 				j := -1
 				for n := range u.clauses {
-					if id(u.clauses[n].raw) == id(c.raw) {
+					if u.clauses[n].is(&c) {
 						j = n
 						break
 					}
